@@ -30,6 +30,12 @@ CLAIMED = {
  'C06': dict(cat='proof', tech='Coq proof (atomicity, release and abort at the deadline) + exhaustive fault enumeration on the real code + correspondence',
    text='any set of DT frames carrying fewer bytes than announced delivers nothing (so a lost packet can never produce a truncated/mixed payload), a session past its deadline is released by the job pass with a timeout abort exactly for connection-mode, untouched before; peer abort finishes an originator; every single-frame loss and every silence point of every transfer shape enumerated on both real layers with a follow-up transfer',
    note='time bounds are relative to the jitter of A3 and the 25 ms probe grid; the J1939-22 layer by fault enumeration/oracle (and C02 model), its theorems are not restated here'),
+ 'C03': dict(cat='proof', tech='Coq proof of equality between generated builders/extractors and an independent SAE layout spec + real stack against an independent reference peer + correspondence',
+   text='every generated J1939-21 builder (RTS, CTS, EndOfMsgACK, BAM, Abort, DT incl. identifier) equals the encoder of an independent specification of the SAE layouts written in / and mod (Sae21.v, with its own decode(encode)=id), and every generated field extraction reads back the spec-encoded fields, for all in-range arguments; identifier layout; role conformance against any legal peer choice = C01 role theorems; both real layers exchanged messages with an independent Python reference peer making the standard\'s free choices',
+   note='the Coq wire theorems cover the J1939-21 layouts; the J1939-22 layouts are checked against the independent reference peer/decoder by the oracle and by C02 item correspondence'),
+ 'C09': dict(cat='proof', tech='Coq proof (window/hold/grant/pacing theorems on the model) + bus-level oracle against a reference peer + correspondence',
+   text='no DT while waiting for a CTS, exactly the granted packets after a CTS(g) for every g, hold emits nothing; every grant of the responder is between 1 and min(own maximum, RTS limit, remaining); a BAM session is untouched before its deadline and re-armed to now+interval by each packet; real stacks on both layers against a reference peer with windows 1..255, holds, intervals, read from the bus by an oracle',
+   note='upper pacing bound is relative to the jitter J (A3); FD layer by oracle (and C02 model)'),
 }
 props = [json.loads(l) for l in open(os.path.join(ROOT, 'properties.jsonl'))]
 old = {}
